@@ -71,6 +71,39 @@ Theorem C20_send_after_unlock_progress : forall cap s, 1 <= cap ->
   qsteps false cap (mk_qstate HP0 C0 0) s -> exists s', qstep false cap s s'.
 Proof. exact send_after_unlock_progress. Qed.
 
+(* the same soundness with goroutines starting only in the ENTRY POINTS of the program (exported
+   functions, functions started with `go` or used as values, functions nobody calls); helpers are
+   checked inlined at their call sites — the form the generated obligation repo_race_free uses *)
+Theorem C20_lockset_sound_from : forall G P entries bodies c0 c,
+  well_locked_from G P entries = true -> inline_entries fuel0 P entries = Some bodies ->
+  idle c0 -> steps bodies c0 c -> ~ racy G c.
+Proof. exact lockset_sound_from. Qed.
+
+(* sync.RWMutex refuses new readers once a writer waits: a reader that re-acquires the read lock
+   it already holds (gratuitous -> shouldAnnounce) and a writer asking for the lock in between
+   are stuck forever; without nesting every state is final or can move.  The obligation
+   repo_no_recursive_lock decides over all call paths (calls inlined) that no mutex is
+   acquired while it is already held. *)
+Theorem C20_recursive_rlock_deadlocks :
+  exists s, rrsteps true (mk_rrstate RP0 WP0) s /\ rrstuck true s /\ ~ rrfinished s /\
+            rr_r s = RP1 /\ rr_w s = WPpending.
+Proof. exact recursive_rlock_deadlocks. Qed.
+
+Theorem C20_sequential_rlock_progress : forall s, rrfinished s \/ exists s', rrstep false s s'.
+Proof. exact sequential_rlock_progress. Qed.
+
+Example C20_nonvacuous_recursion_and_order :
+  let should := ("A.should", [AcqR "A.mu"; Rd "A.f"; RelR "A.mu"]) in
+  no_recursive_lock [("A.grat", [AcqR "A.mu"; Rd "A.g"; RelR "A.mu"]); should] = true /\
+  no_recursive_lock [("A.grat", [AcqR "A.mu"; Call "A.should"; RelR "A.mu"]); should] = false /\
+  reacquirers [("A.grat", [AcqR "A.mu"; Call "A.should"; RelR "A.mu"]); should] = ["A.grat"] /\
+  lock_order_ok [("f", [Acq "m1"; Acq "m2"; Rel "m2"; Rel "m1"]); ("g", [Acq "m2"; Rel "m2"])] = true /\
+  lock_order_ok [("f", [Acq "m1"; Acq "m2"; Rel "m2"; Rel "m1"]); ("g", [Acq "m2"; Acq "m1"; Rel "m1"; Rel "m2"])] = false /\
+  lock_order_ok [("f", [Acq "m1"; CallCb "cb"; Rel "m1"])] = false /\
+  well_locked_from [("A.f", "A.mu")] [("A.Set", [Acq "A.mu"; Call "A.helper"; Rel "A.mu"]); ("A.helper", [WrE "A.f"])] ["A.Set"] = true /\
+  well_locked_from [("A.f", "A.mu")] [("A.Set", [Acq "A.mu"; Call "A.helper"; Rel "A.mu"]); ("A.helper", [WrE "A.f"])] ["A.Set"; "A.helper"] = false.
+Proof. vm_compute. repeat split. Qed.
+
 (* non-vacuity of the obligation: the two defer orders of SetBalancer *)
 Example C20_nonvacuous_send :
   let loop := ("A.spamLoop", [Recv "A.ch"; Call "A.gratuitous"]) in
